@@ -223,7 +223,7 @@ class TLV:
             tlv_key = entry_key if isinstance(entry_key, int) else entry_key[0]
             name = K_TLV_TYPE_NAMES.get(tlv_key, UNKNOWN_TLV_TYPE_NAME)
             value_description = ""
-            if tlv_key == TLV.kTLVType_Error:
+            if tlv_key == TLV.kTLVType_Error and len(entry_value) > 0:
                 value_description = K_TLV_ERROR_NAMES.get(entry_value[0], UNKNOWN_TLV_ERROR_NAME)
             if value_description:
                 value_description = f" [{value_description}]"
